@@ -38,6 +38,11 @@ def run(chk, tier):
     for feats in [facts.CONFIGS["default"], facts.CONFIGS["all"], facts.CONFIGS["none"]]:
         prog = mir.Program(facts.load_mir(feats))
         typestate(chk, prog, prog.config)
+        # the named/unnamed discipline lives in FieldsBuilder<_, Kind>: it holds for a definition only if each field list comes whole from ONE
+        # such builder (setters replace their slot; lists grow by push of the builder's own product only)
+        c17.transitions(chk, prog, prog.config, "docs" in feats)
+        c17.accumulation(chk, prog, prog.config)
+        c17.finalisers(chk, prog, prog.config)
     dprog = mir.Program(facts.load_mir(facts.CONFIGS["all"], "scale_info_derive"))
     validation(chk, dprog, dprog.config)
     helper_positions(chk, dprog, dprog.config)
